@@ -81,6 +81,14 @@ def observables(rng, f, x_factory):
         return {int(i): int(v) for i, v in zip(y.nodes.node_id.values, y.nodes.strahler_index.values)}
     obs.append(('strahler_index', dict(method=method, to_ignore=ign), si))
     size = float(rng.choice([0.5, 2.5, 6.5, 15.5])); rec = [False, True][int(rng.integers(2))]
+    # integer-lattice forests have integer edge lengths: thresholds that are EXACTLY a twig's length (ties) are legitimate inputs
+    xyz_ = np.array(f['xyz'], dtype=float)
+    if np.all(xyz_ == np.round(xyz_)) and rng.random() < 0.6:
+        par_ = dict(zip(f['ids'], f['parents'])); pos_ = dict(zip(f['ids'], xyz_))
+        lens = sorted(set(float(np.linalg.norm(pos_[i] - pos_[p])) for i, p in par_.items() if p >= 0))
+        ints = [v for v in lens if v == int(v) and v > 0]
+        if ints:
+            size = float(rng.choice(ints)) * float(rng.choice([1, 1, 2]))
     obs.append(('prune_twigs', dict(size=size, recursive=rec),
                 lambda x: sorted(int(i) for i in navis.prune_twigs(x, size=size, recursive=rec, inplace=False).nodes.node_id.values)))
     obs.append(('cable_length', {}, lambda x: float(navis.morpho.cable_length(x))))
